@@ -2,6 +2,8 @@ use crate::prng::Rng;
 use std::collections::BTreeMap;
 
 pub mod dos;
+pub mod read;
+pub mod write;
 
 #[derive(Default)]
 pub struct GenOut {
@@ -41,7 +43,7 @@ pub trait Stream {
 }
 
 pub fn all() -> Vec<Box<dyn Stream>> {
-    vec![Box::new(dos::Dos)]
+    vec![Box::new(dos::Dos), Box::new(read::ReadStream), Box::new(write::WriteStream)]
 }
 
 pub fn rng_for(seed: u64, stream: &str, idx: u64) -> Rng {
